@@ -22,6 +22,8 @@ import time
 
 VERIF = os.path.dirname(os.path.dirname(os.path.abspath(__file__)))
 REPO = os.environ.get("VERIF_REPO", "/repo")
+# where evidence/ and replays/ go: /verif, unless a mutation run (tools/run_seeds.sh) redirects them so that the committed evidence stays that of the unchanged tree
+OUT = os.environ.get("VERIF_OUT", None)
 JAVA_CP = "/opt/veriftools/tla/tla2tools.jar:/opt/veriftools/tla/CommunityModules-deps.jar"
 GOENV = {"GOFLAGS": "-mod=mod", "GOPROXY": "off", "GOSUMDB": "off", "GOTOOLCHAIN": "local"}
 
@@ -83,7 +85,7 @@ class Ctx:
         self.known_hits = {}      # finding id -> count
         self.notes = {}
         self.findings = load_findings(prop)
-        shutil.rmtree(os.path.join(VERIF, "replays", prop), ignore_errors=True)     # replay files belong to the run that wrote them
+        shutil.rmtree(os.path.join(OUT or VERIF, "replays", prop), ignore_errors=True)     # replay files belong to the run that wrote them
         self._driver = None
         self._cli = None
         self.workers = int(os.environ.get("VERIF_WORKERS", "0")) or min(16, os.cpu_count() or 4)
@@ -171,6 +173,15 @@ class Ctx:
     # ---------------------------------------------------------------- Go
     def _prep_harness(self):
         h = os.path.join(VERIF, "harness")
+        if REPO != "/repo":
+            # a mutation run against another tree: a private copy of the harness whose go.mod points there
+            hc = os.path.join(self.scratch, "harness")
+            if not os.path.exists(hc):
+                shutil.copytree(h, hc)
+                gm = open(os.path.join(hc, "go.mod")).read().replace("github.com/cube2222/octosql => /repo", "github.com/cube2222/octosql => " + REPO)
+                with open(os.path.join(hc, "go.mod"), "w") as f:
+                    f.write(gm)
+            h = hc
         # keep go.sum in step with the repository (offline: nothing can be fetched anyway)
         try:
             with open(os.path.join(REPO, "go.sum")) as f:
@@ -274,7 +285,7 @@ class Ctx:
             print("KNOWN-FINDING: property=%s %s [%s, observed %d times in this run]" % (self.prop, f["what"], k, n))
         paths = []
         if self.violations:
-            d = os.path.join(VERIF, "replays", self.prop)
+            d = os.path.join(OUT or VERIF, "replays", self.prop)
             os.makedirs(d, exist_ok=True)
             seen = set()
             for v in self.violations:
@@ -288,13 +299,18 @@ class Ctx:
                     json.dump(v, f, indent=1, sort_keys=True)
                 paths.append((p, v))
         cov = dict(self.coverage)
+        if cov.get("states", 0) < 1:
+            # no state space was explored by TLC in this run (TLC evaluated exported cases / recorded observations instead): the evidence is then
+            # the generic record (evaluations, distinct_nontrivial, rule, samples), not a state count of zero
+            for k in ("states", "transitions", "traces_validated_against_impl"):
+                cov.pop(k, None)
         cov.update(self.notes)
         cov["known_findings_observed"] = dict(self.known_hits)
         ev = {"property_id": self.prop, "tier": self.tier, "seed": self.seed, "level": self.level,
               "coverage": cov, "assumptions": self.assumptions, "wall_s": round(wall, 2),
               "violations": len(paths)}
-        os.makedirs(os.path.join(VERIF, "evidence"), exist_ok=True)
-        with open(os.path.join(VERIF, "evidence", self.prop + ".json"), "w") as f:
+        os.makedirs(os.path.join(OUT or VERIF, "evidence"), exist_ok=True)
+        with open(os.path.join(OUT or VERIF, "evidence", self.prop + ".json"), "w") as f:
             json.dump(ev, f, indent=1, sort_keys=True)
         # at most 5 lines, grouped by signature
         shown = set()
